@@ -62,11 +62,11 @@ def traversal(prog, rep):
                 if len(ds) >= 5:
                     dvc = l
         table = {}
+        loops = natural_loops(body)
+        lp = max(loops, key=lambda x: len(x[1])) if loops else (None, set())
         if dvc is None:
             rep.violation("C18.T", "anchor-lost:did_visit_children", f.loc(), "walk state flag not found")
         else:
-            loops = natural_loops(body)
-            lp = max(loops, key=lambda x: len(x[1])) if loops else (None, set())
             for (b, idx, kind, payload) in body.defs().get(dvc, []):
                 if kind != "assign":
                     continue
